@@ -45,6 +45,41 @@ CONFIGS = {
 }
 
 
+def write_if_changed(path, text):
+    """atomic: concurrent checks regenerate the same files; a reader must never see a truncated one"""
+    if os.path.exists(path):
+        try:
+            if open(path).read() == text:
+                return False
+        except OSError:
+            pass
+    os.makedirs(os.path.dirname(path), exist_ok=True)
+    tmp = "%s.tmp.%d" % (path, os.getpid())
+    with open(tmp, "w") as fh:
+        fh.write(text)
+    os.replace(tmp, path)
+    return True
+
+
+class FileLock:
+    """exclusive advisory lock (several checks may run at once on a fresh tree and want the same build / oracle)"""
+
+    def __init__(self, path):
+        self.path = path
+
+    def __enter__(self):
+        import fcntl
+        os.makedirs(os.path.dirname(self.path), exist_ok=True)
+        self.fh = open(self.path, "w")
+        fcntl.flock(self.fh, fcntl.LOCK_EX)
+        return self
+
+    def __exit__(self, *a):
+        import fcntl
+        fcntl.flock(self.fh, fcntl.LOCK_UN)
+        self.fh.close()
+
+
 def fingerprint(repo=REPO):
     h = hashlib.sha256()
     roots = ["src", "include", "cmake", "CMakeLists.txt"]
@@ -85,6 +120,14 @@ def build(cfg, fp=None, repo=REPO, log=None):
     bdir = os.path.join(cfgdir, fp)
     lib = os.path.join(bdir, "lib", "librelic_s.a")
     if os.path.exists(lib) and os.path.exists(os.path.join(bdir, ".ok")):
+        os.utime(bdir, None)
+        return bdir, None
+    with FileLock(os.path.join(CACHE, "locks", "build-%s.lock" % cfg)):
+        return _build_locked(cfg, fp, repo, c, cfgdir, bdir, lib)
+
+
+def _build_locked(cfg, fp, repo, c, cfgdir, bdir, lib):
+    if os.path.exists(lib) and os.path.exists(os.path.join(bdir, ".ok")):      # built by the process that held the lock before us
         os.utime(bdir, None)
         return bdir, None
     shutil.rmtree(bdir, ignore_errors=True)
